@@ -195,6 +195,20 @@ writes its own failure response when it refuses -/
 structure CertgenExt where
   checkAuth : Nat → authInfo × Option Err
 
+/-! ### cmd/keymasterd `certGenHandler`, from the duration default to the dispatch -/
+
+/-- what the tail of `certGenHandler` does: a refusal, or a call of one of the two signing handlers with the user and
+the lifetime it computed (`kube` = the `x509-kubernetes` flavour) -/
+inductive IssueEffect
+  | fail (status : Int)
+  | ssh (user : List Char) (duration : Int)
+  | x509 (user : List Char) (duration : Int) (kube : Bool)
+deriving DecidableEq, Repr
+
+/-- `time.ParseDuration`: arbitrary (nanoseconds, any sign) -/
+structure IssueExt where
+  parseDuration : List Char → Int × Option Err
+
 /-! ### cmd/keymasterd `consumeLoginChallenge` -/
 
 /-- `localUserData`: the pending challenge of a user; the two challenge pointers are compared by identity (numbers
